@@ -45,8 +45,12 @@ def d1_error_discipline(ctx, rm: REModel):
         ctx.ob("C12.D1-command-errors-stored", cname(run, None, "handler order"), i_c < i_e or names[i_e] == "Exception",
                "" if (i_c < i_e or names[i_e] == "Exception") else "the generic handler shadows the CancelledError handler", where=where(run, t))
     # unknown command -> InvalidCommand stored
+    from ..idioms import prev_siblings, sentinel_lookup
+    prevs_ = prev_siblings(run.node)
     ifs = [s for s in A.walk_stmts(rm.inner_try.body) if isinstance(s, ast.If) and ("self._command_registry.get(msg.command" in A.norm(s.test)
-                                                                                    or A.norm(s.test) == "msg.command not in self._command_registry")]
+                                                                                    or A.norm(s.test) == "msg.command not in self._command_registry"
+                                                                                    or ((sentinel_lookup(s.test, prevs_.get(s)) or (None, None, None, None))[1] == "self._command_registry"
+                                                                                        and sentinel_lookup(s.test, prevs_.get(s))[3] == "absent"))]
     ok = bool(ifs) and any(isinstance(x, ast.Assign) and A.chain(x.targets[0]) == "new_response" and "InvalidCommand(msg.command)" in A.norm(x.value) for x in ifs[0].body) \
         and isinstance(ifs[0].body[-1], ast.Continue)
     ctx.ob("C12.D1-command-errors-stored", cname(run, None, "unknown command -> InvalidCommand as response"), ok, "" if ok else "an unknown command no longer surfaces in the plan as InvalidCommand", where=where(run, rm.inner_try))
@@ -200,7 +204,11 @@ def d4_unhandled_ends_call(ctx, rm: REModel):
         ctx.ob("C12.D4-unhandled-exception-ends-call", cname(run, h, f"{A.head(h)} -> re-raise when no plan is left"), ok,
                "" if ok else "an exception no plan handled is dropped when the plan stack empties", where=where(run, h))
         if A.norm(h.type) == "Exception" and h.name:
-            ok = bool(ifs) and any(A.norm(x) == f"stashed_exception = {h.name}" for x in ifs[0].body)
+            # the stash may be exempt for the plan's normal end (`if not isinstance(e, StopIteration): stashed_exception = e`) when
+            # one handler covers both the end of the plan and its failure
+            ok = bool(ifs) and any(A.norm(x) == f"stashed_exception = {h.name}" or (
+                isinstance(x, ast.If) and A.norm(x.test) == f"not isinstance({h.name}, StopIteration)" and not x.orelse
+                and [A.norm(y) for y in A.body(x.body)] == [f"stashed_exception = {h.name}"]) for x in ifs[0].body)
             ctx.ob("C12.D4-unhandled-exception-ends-call", cname(run, h, f"{A.head(h)} -> the next plan on the stack gets the exception"), ok,
                    "" if ok else "the exception is not passed on to the enclosing plan", where=where(run, h))
     ctx.expect("C12.D4-unhandled-exception-ends-call", 4)
